@@ -212,7 +212,8 @@ def roundtrip_harness(ctx, cfg):
     nres = 1 + ctx.choice('results', 3)
     # 0 none (no mask arrays), 1 first cell of result 0, 2 last cell of the last result, 3 both, 4 a middle result only, 5 first result without a mask array + last masked
     maskpat = ctx.choice('maskpat', 6)
-    rec = {'kind': 'roundtrip', 'shape': shape, 'dkind': kinds, 'nres': nres, 'maskpat': maskpat}
+    coords = ['plain', 'packed'][ctx.choice('coords', 2)]      # template coordinate variables: doubles, or packed int16 (scale_factor / add_offset)
+    rec = {'kind': 'roundtrip', 'shape': shape, 'dkind': kinds, 'nres': nres, 'maskpat': maskpat, 'coords': coords}
     rep = D.WORKER.ask({'netcdf_roundtrip': rec, 'scratch': D.SCRATCH})
     obs, groups = [], {}
     for lab, ok in rep.get('facts', [('the round trip ran (%s)' % rep.get('error'), False)]):
